@@ -364,7 +364,9 @@ class Module(metaclass=ModuleMeta):
                     self.index or 0, self.mtype, name, evalue, emin, emax
                 ),
             )
-            value = raw_value
+            # Keep the out-of-range value, converted like any other stored value,
+            # so that get_raw() gives back the raw value that was loaded.
+            value = from_raw_value(raw_value)
         self.controller_values[name] = value
 
     def propagate_down(self, controller_name, value):
